@@ -173,24 +173,37 @@ func newE1(P *Program, scope []*ssa.Function, cfg e1Config) *e1Run {
 }
 
 func (r *e1Run) run() {
-	for r.iters = 1; r.iters <= 8; r.iters++ {
-		r.cs.resetPosts()
-		r.A = r.cs.houdini()
-		r.obls = nil
-		r.wrapDone = map[*ssa.BinOp]bool{}
-		for _, fn := range r.scope {
-			r.gen(r.A.fa(fn), false)
-		}
+	r.A = r.cs.newAnalysis()
+	var dirty map[*ssa.Function]bool // nil = everything
+	for r.iters = 1; r.iters <= 12; r.iters++ {
+		r.cs.houdiniOn(r.A, dirty)
+		// (re-)generate and check the obligations of the functions that changed
+		var keep []*e1Obl
 		for _, o := range r.obls {
+			if dirty != nil && !dirty[o.Fn] {
+				keep = append(keep, o)
+			}
+		}
+		r.obls = keep
+		r.wrapDone = map[*ssa.BinOp]bool{}
+		n := len(r.obls)
+		for _, fn := range r.scope {
+			if dirty == nil || dirty[fn] {
+				r.gen(r.A.fa(fn), false)
+			}
+		}
+		for _, o := range r.obls[n:] {
 			r.check(o)
 		}
 		// the arithmetic that feeds conditions, bounds, arguments and results must be exact
 		if r.cfg.Wrap {
 			n := len(r.obls)
 			for _, fn := range r.scope {
-				fa := r.A.fa(fn)
-				fa.markRoots()
-				r.gen(fa, true)
+				if dirty == nil || dirty[fn] {
+					fa := r.A.fa(fn)
+					fa.markRoots()
+					r.gen(fa, true)
+				}
 			}
 			for _, o := range r.obls[n:] {
 				r.check(o)
@@ -202,17 +215,21 @@ func (r *e1Run) run() {
 				}
 			}
 		}
-		adopted := false
+		changed := map[*ssa.Function]bool{}
 		for _, o := range r.obls {
 			if (o.OK && !o.Soft) || o.Hard {
 				continue
 			}
 			if r.tryPres(o) {
-				adopted = true
+				changed[o.Fn] = true
 			}
 		}
-		if !adopted {
+		if len(changed) == 0 {
 			break
+		}
+		dirty = r.cs.callersClosure(changed)
+		for fn := range dirty {
+			r.A.dropFA(fn)
 		}
 	}
 	sort.SliceStable(r.obls, func(i, j int) bool {
